@@ -1,7 +1,9 @@
 """C20 — lanelet arc-length geometry and successor-route enumeration are sound.
-oracle: the property statement re-evaluated independently (arc-length re-integration with math.hypot, linear
-        interpolation, concatenation, path checker) vs Lanelet.distance / interpolate_position / merge_lanelets /
-        find_lanelet_successors_in_range / find_lanelet_predecessors_in_range
+oracle: the property statement re-evaluated independently (arc-length re-integration with math.hypot over ALL
+        coordinates of the vertices (2-D and 3-D lanelets), linear interpolation, concatenation, path checker) vs
+        Lanelet.distance / interpolate_position / merge_lanelets / find_lanelet_successors_in_range /
+        find_lanelet_predecessors_in_range; "every lanelet" includes lanelets with a history (cached distances read
+        before, convert_to_2d) and the lanelet merge_lanelets returns (its distance array and interpolate_position)
 corr:   Model/ArcLen.v and Model/Routes.v evaluated by vm_compute on the same cases (Corr/C20.v)"""
 import math
 import re
@@ -18,22 +20,32 @@ from commonroad.scenario.lanelet import Lanelet, LaneletNetwork
 TOL = 1e-9
 RULE = ("cases from one seeded PRNG: centre lines of 2-30 vertices (exactly representable: axis-aligned / Pythagorean "
         "steps with dyadic scale, so every cumulative length is exact; general: curved, rounded to 3 decimals; edge: "
-        "segments of 1e-6, coordinates of 1e5; a few with repeated vertices, compared with the model only) with "
-        "independent left / right boundaries; arc lengths 0, full length, exactly at every kind of vertex, interior, "
+        "segments of 1e-6, coordinates of 1e5; a few with repeated vertices, compared with the model only), 2-D "
+        "(n x 2) and, about one in three, 3-D (n x 3: Pythagorean-quadruple steps / level / ramps / hilly elevation, "
+        "banked boundaries), with independent left / right boundaries; lanelet histories: fresh, cumulative distances "
+        "read (cached) before, convert_to_2d with and without cached distances; arc lengths 0, full length, exactly at every kind of vertex, interior, "
         "mid-segment, just outside, int / float / numpy scalars; merge pairs with coinciding, almost coinciding "
         "(inside / outside numpy.isclose) and separated joints, relation stored on either or both sides, both "
-        "argument orders, unconnected pairs; digraphs of 1-9 nodes + start (chains, cycles through and beside the "
+        "argument orders, unconnected pairs, 2-D and 3-D, parts of different vertex count / spacing, distances of the "
+        "parts cached before or not; every merged lanelet is itself judged as a lanelet (its whole cumulative-distance "
+        "array against its own centre line, interpolate_position at 0, full length, merged vertices incl. the joint, "
+        "mid-segment and interior arc lengths); digraphs of 1-9 nodes + start (chains, cycles through and beside the "
         "start, diamonds, random, successor and predecessor variants, exact dyadic lengths) x range limits 0, "
         "tiny, exactly a path length, default 50, large, ints. distinct = distinct case dicts; non-trivial = judged "
         "by the oracle (inside the quantifier)")
 ASSUME = ["sqrt is an oracle of the model: the case files carry the segment lengths numpy computed; the harness checks "
-          "l^2 = dx^2 + dy^2 within 4 ulp on every case",
+          "l^2 = dx^2 + dy^2 (+ dz^2) within 1e-15 relative on every case, in the harness and again inside Coq "
+          "(Corr.C20.lens_ok)",
+          "a 2-D vertex is modelled as the 3-D vertex with z = 0 (numpy works on whole rows; the z terms vanish); the "
+          "oracle additionally demands that returned points have the dimension of the lanelet's vertices",
           "numpy.cumsum adds sequentially (rounded; model exact): cumulative lengths and points compared within "
           "1e-9*max(1, scale); the segment index is compared exactly when all cumulative sums are exact in binary "
           "floating point, otherwise arc lengths within 1e-9 of a vertex are compared by the oracle only",
           "numpy.searchsorted(a, v) on a sorted array returns the first index i with v <= a[i]",
           "quantifier: consecutive vertices distinct, no lanelet its own successor / predecessor, all referenced "
-          "ids resolve; merging is judged when all three joints coincide exactly"]
+          "ids resolve; concatenation / length-sum of a merge are judged when all three joints coincide exactly; "
+          "the distance / interpolation clauses are judged on every lanelet a successful merge returns (against the "
+          "vertices it returns) and on lanelets after convert_to_2d (against the projected vertices)"]
 
 
 LIB_GONE = re.compile(r"Cannot find a physical path|Cannot find library|Compiled library .* makes inconsistent|"
@@ -61,6 +73,29 @@ def build_network(case):
     return net, objs
 
 
+def apply_history(la, hist):
+    """the history of a lanelet between construction and the judged call"""
+    for h in hist or []:
+        if h == "touch":  # fills the caches
+            la.distance
+            la.inner_distance
+        elif h == "to2d":
+            la.convert_to_2d()
+        else:
+            raise RuntimeError(h)
+    return la
+
+
+def subject(case):
+    return apply_history(build_lanelet(case), case.get("hist"))
+
+
+def effective(case):
+    """the polylines of the lanelet after its history: {"center", "left", "right"}"""
+    cut = 2 if "to2d" in (case.get("hist") or []) else None
+    return {k: [list(p[:cut]) for p in case[k]] for k in ("center", "left", "right")}
+
+
 class Timeout(Exception):
     pass
 
@@ -81,34 +116,67 @@ def cast_s(s, t):
     return {"float": float, "int": int, "np": np.float64}[t](s)
 
 
+def interp_obs(la, s):
+    try:
+        c, r, l, idx = la.interpolate_position(s)
+    except AssertionError:
+        return ("assert",)
+    except IndexError:
+        return ("index",)
+    except ZeroDivisionError:
+        return ("nan",)
+    pts = [[float(v) for v in c], [float(v) for v in r], [float(v) for v in l]]
+    if any(math.isnan(v) or math.isinf(v) for p in pts for v in p):
+        return ("nan",)
+    return ("ip", pts, int(idx))
+
+
+def merged_queries(case, center, total):
+    """arc lengths at which the merged lanelet is queried: from the case's specs, resolved on the merged centre line
+    with the harness' own integration, clamped into [0, reported length]"""
+    cum = own_cum(center)
+    out = []
+    for q in case.get("qs", []):
+        k = q["k"]
+        if k == "zero":
+            sv = 0.0
+        elif k == "full":
+            sv = total
+        elif k == "frac":
+            sv = q["v"] * total
+        elif k == "vertex":
+            sv = cum[q["i"] % len(cum)]
+        elif k == "joint":
+            sv = cum[(len(case["l1" if case["pred_is"] == 1 else "l2"]["center"]) - 1) % len(cum)]
+        else:  # mid
+            j = q["i"] % (len(cum) - 1)
+            sv = (cum[j] + cum[j + 1]) / 2
+        out.append(min(max(sv, 0.0), total))
+    return out
+
+
 def observe(case):
     op = case["op"]
     if op == "dist":
-        la = build_lanelet(case)
+        la = subject(case)
         return ("dist", [float(x) for x in la.distance])
     if op == "interp":
-        la = build_lanelet(case)
-        try:
-            c, r, l, idx = la.interpolate_position(cast_s(case["s"], case.get("st", "float")))
-        except AssertionError:
-            return ("assert",)
-        except IndexError:
-            return ("index",)
-        except ZeroDivisionError:
-            return ("nan",)
-        pts = [[float(c[0]), float(c[1])], [float(r[0]), float(r[1])], [float(l[0]), float(l[1])]]
-        if any(math.isnan(v) or math.isinf(v) for p in pts for v in p):
-            return ("nan",)
-        return ("ip", pts, int(idx))
+        la = subject(case)
+        return interp_obs(la, cast_s(case["s"], case.get("st", "float")))
     if op == "merge":
         a, b = build_lanelet(case["l1"]), build_lanelet(case["l2"])
+        if case.get("touch"):
+            apply_history(a, ["touch"])
+            apply_history(b, ["touch"])
         try:
             m = Lanelet.merge_lanelets(a, b)
         except AssertionError:
             return ("assert",)
-        return ("m", {"id": int(m.lanelet_id), "left": m.left_vertices.tolist(), "center": m.center_vertices.tolist(),
-                      "right": m.right_vertices.tolist(), "succ": list(m.successor), "pred": list(m.predecessor)},
-                float(m.distance[-1]), float(a.distance[-1]), float(b.distance[-1]))
+        md = {"id": int(m.lanelet_id), "left": m.left_vertices.tolist(), "center": m.center_vertices.tolist(),
+              "right": m.right_vertices.tolist(), "succ": list(m.successor), "pred": list(m.predecessor)}
+        dist = [float(x) for x in m.distance]
+        ips = [(sv, interp_obs(m, sv)) for sv in merged_queries(case, md["center"], dist[-1])]
+        return ("m", md, dist[-1], float(a.distance[-1]), float(b.distance[-1]), dist, ips)
     if op in ("succ", "pred"):
         net, objs = build_network(case)
         la = objs[case["start"]]
@@ -128,10 +196,14 @@ def seg_lens(center):
     return [float(x) for x in np.sqrt(np.square(np.diff(c, axis=0)).sum(axis=1))]
 
 
+def vsub(q, p):
+    return [b - a for a, b in zip(p, q)]
+
+
 def own_cum(center):
     out = [0.0]
-    for (x0, y0), (x1, y1) in zip(center, center[1:]):
-        out.append(out[-1] + math.hypot(x1 - x0, y1 - y0))
+    for p, q in zip(center, center[1:]):
+        out.append(out[-1] + math.hypot(*vsub(q, p)))
     return out
 
 
@@ -146,8 +218,8 @@ def has_dup(center):
 def exact_sums(center):
     """True iff every cumulative length is exactly representable (model and implementation agree exactly)"""
     ls = seg_lens(center)
-    for (x0, y0), (x1, y1), l in zip(center, center[1:], ls):
-        if F(l) ** 2 != (F(x1) - F(x0)) ** 2 + (F(y1) - F(y0)) ** 2:
+    for p, q, l in zip(center, center[1:], ls):
+        if F(l) ** 2 != sum((F(b) - F(a)) ** 2 for a, b in zip(p, q)):
             return False
     acc, facc = F(0), 0.0
     for l in ls:
@@ -159,8 +231,8 @@ def exact_sums(center):
 
 
 def lens_hypothesis_ok(center):
-    for (x0, y0), (x1, y1), l in zip(center, center[1:], seg_lens(center)):
-        n2 = (F(x1) - F(x0)) ** 2 + (F(y1) - F(y0)) ** 2
+    for p, q, l in zip(center, center[1:], seg_lens(center)):
+        n2 = sum((F(b) - F(a)) ** 2 for a, b in zip(p, q))
         if l < 0 or abs(F(l) ** 2 - n2) > n2 * F(1, 10 ** 15):
             return False
     return True
@@ -170,14 +242,62 @@ def lens_hypothesis_ok(center):
 def judged(case):
     op = case["op"]
     if op in ("dist", "interp"):
-        return not has_dup(case["center"])
-    if op == "merge":
-        return case.get("judge", False)
+        return not has_dup(effective(case)["center"])
+    if op == "merge":  # a connected pair merges; what it returns is a lanelet (judged as one, see oracle)
+        return case.get("judge", False) or not case.get("rel", "none").startswith("none")
     return True
 
 
 def path_len_exact(case, p):
     return sum(F(case["nodes"][str(i)]["len"]) for i in p)
+
+
+def check_dist(center, d):
+    """the distance clause on one lanelet: None | (signature, what)"""
+    cum = own_cum(center)
+    tol = TOL * scale_of(center) * max(1, len(d))
+    if len(d) != len(center):
+        return ("length", "distance has the wrong number of entries")
+    if d[0] != 0:
+        return ("start", "cumulative distance does not start at 0")
+    if any(b < a for a, b in zip(d, d[1:])):
+        return ("monotone", "cumulative distance decreases")
+    if abs(d[-1] - cum[-1]) > tol:
+        return ("total", f"last cumulative distance {d[-1]!r} differs from the centre-line length {cum[-1]!r}")
+    for k, (a, b) in enumerate(zip(d, cum)):
+        if abs(a - b) > tol:
+            return ("partial", f"cumulative distance [{k}] = {a!r} differs from the arc length {b!r} up to vertex {k}")
+    return None
+
+
+def check_interp(pls, s, o):
+    """the interpolation clause for one arc length 0 <= s <= length on the lanelet with polylines pls"""
+    if o[0] != "ip":
+        return ("fails", f"interpolate_position fails ({o[0]}) for 0 <= s <= length")
+    center = pls["center"]
+    cum = own_cum(center)
+    n = len(cum)
+    sc = scale_of(center, pls["left"], pls["right"])
+    tol = TOL * sc * n
+    idx = o[2]
+    if not 0 <= idx <= n - 2:
+        return ("segment", "segment id out of range")
+    if not cum[idx] - tol <= s <= cum[idx + 1] + tol:
+        return ("segment", f"segment {idx} does not contain arc length s")
+    j = max(i for i in range(n - 1) if cum[i] <= s) if s > 0 else 0
+    j = min(j, n - 2)
+    lj = cum[j + 1] - cum[j]
+    r = min(1.0, max(0.0, (s - cum[j]) / lj))
+    for name, pl, got in (("center", center, o[1][0]), ("right", pls["right"], o[1][1]),
+                          ("left", pls["left"], o[1][2])):
+        if len(got) != len(pl[j]):
+            return ("dimension", f"{name} point has {len(got)} coordinates, the vertices have {len(pl[j])}")
+        ex = [(1 - r) * a + r * b for a, b in zip(pl[j], pl[j + 1])]
+        # conditioning: an error e in s moves the point by e * |dP| / l_j
+        amp = max(1.0, math.hypot(*vsub(pl[j + 1], pl[j])) / lj)
+        if math.hypot(*vsub(got, ex)) > tol * amp:
+            return (name, f"{name} point is not the point at arc length s (expected {ex})")
+    return None
 
 
 def oracle(case):
@@ -190,61 +310,42 @@ def oracle(case):
         return (f"{op}:{sig}", f"{what}: {brief(case)} -> {str(o)[:300]}")
 
     if op == "dist":
-        d = o[1]
-        cum = own_cum(case["center"])
-        tol = TOL * scale_of(case["center"]) * max(1, len(d))
-        if len(d) != len(case["center"]):
-            return bad("length", "distance has the wrong number of entries")
-        if d[0] != 0:
-            return bad("start", "cumulative distance does not start at 0")
-        if any(b < a for a, b in zip(d, d[1:])):
-            return bad("monotone", "cumulative distance decreases")
-        if abs(d[-1] - cum[-1]) > tol:
-            return bad("total", f"last cumulative distance differs from the centre-line length {cum[-1]!r}")
-        if any(abs(a - b) > tol for a, b in zip(d, cum)):
-            return bad("partial", "cumulative distance differs from the arc length up to a vertex")
-        return None
+        r = check_dist(effective(case)["center"], o[1])
+        return bad(*r) if r else None
     if op == "interp":
-        la = build_lanelet(case)
-        total = float(la.distance[-1])
+        total = float(subject(case).distance[-1])
         s = case["s"]
         if not 0 <= s <= total:
             return None  # outside the quantifier
-        if o[0] != "ip":
-            return bad("fails", f"interpolate_position fails ({o[0]}) for 0 <= s <= length")
-        cum = own_cum(case["center"])
-        n = len(cum)
-        sc = scale_of(case["center"], case["left"], case["right"])
-        tol = TOL * sc * n
-        idx = o[2]
-        if not 0 <= idx <= n - 2:
-            return bad("segment", "segment id out of range")
-        if not cum[idx] - tol <= s <= cum[idx + 1] + tol:
-            return bad("segment", f"segment {idx} does not contain arc length s")
-        j = max(i for i in range(n - 1) if cum[i] <= s) if s > 0 else 0
-        j = min(j, n - 2)
-        lj = cum[j + 1] - cum[j]
-        r = min(1.0, max(0.0, (s - cum[j]) / lj))
-        for name, pl, got in (("center", case["center"], o[1][0]), ("right", case["right"], o[1][1]),
-                              ("left", case["left"], o[1][2])):
-            ex = [(1 - r) * pl[j][0] + r * pl[j + 1][0], (1 - r) * pl[j][1] + r * pl[j + 1][1]]
-            # conditioning: an error e in s moves the point by e * |dP| / l_j
-            amp = max(1.0, math.hypot(pl[j + 1][0] - pl[j][0], pl[j + 1][1] - pl[j][1]) / lj)
-            if math.hypot(ex[0] - got[0], ex[1] - got[1]) > tol * amp:
-                return bad(name, f"{name} point is not the point at arc length s (expected {ex})")
-        return None
+        r = check_interp(effective(case), s, o)
+        return bad(*r) if r else None
     if op == "merge":
         if o[0] != "m":
-            return bad("fails", "merge_lanelets rejects a connected pair")
-        pred, suc = (case["l1"], case["l2"]) if case["pred_is"] == 1 else (case["l2"], case["l1"])
+            return bad("fails", "merge_lanelets rejects a connected pair") if case.get("judge") else None
         m = o[1]
-        for k in ("left", "center", "right"):
-            exp = [list(map(float, p)) for p in pred[k]] + [list(map(float, p)) for p in suc[k][1:]]
-            if m[k] != exp:
-                return bad(k, f"{k} boundary of the merged lanelet is not the concatenation (joint once)")
-        lp, ls = (o[3], o[4]) if case["pred_is"] == 1 else (o[4], o[3])
-        if abs(o[2] - (lp + ls)) > TOL * max(1.0, lp + ls) * (len(m["center"])):
-            return bad("length", f"merged length {o[2]!r} is not the sum {lp + ls!r}")
+        if case.get("judge"):
+            pred, suc = (case["l1"], case["l2"]) if case["pred_is"] == 1 else (case["l2"], case["l1"])
+            for k in ("left", "center", "right"):
+                exp = [list(map(float, p)) for p in pred[k]] + [list(map(float, p)) for p in suc[k][1:]]
+                if m[k] != exp:
+                    return bad(k, f"{k} boundary of the merged lanelet is not the concatenation (joint once)")
+            lp, ls = (o[3], o[4]) if case["pred_is"] == 1 else (o[4], o[3])
+            if abs(o[2] - (lp + ls)) > TOL * max(1.0, lp + ls) * (len(m["center"])):
+                return bad("length", f"merged length {o[2]!r} is not the sum {lp + ls!r}")
+        # the merged lanelet is a lanelet: the distance / interpolation clauses on the vertices it has
+        if has_dup(m["center"]):
+            return None
+        r = check_dist(m["center"], o[5])
+        if r:
+            return (f"merge:merged-{r[0]}", f"merged lanelet: {r[1]}: {brief(case)} -> center={m['center'][:8]} "
+                                            f"distance={o[5][:8]}")
+        for sv, oi in o[6]:
+            if not 0 <= sv <= o[2]:
+                continue
+            r = check_interp(m, sv, oi)
+            if r:
+                return (f"merge:merged-{r[0]}", f"merged lanelet, interpolate_position({sv!r}): {r[1]}: {brief(case)} "
+                                                f"-> center={m['center'][:8]} got {str(oi)[:200]}")
         return None
     # routes
     if o[0] == "timeout":
@@ -279,9 +380,12 @@ def brief(case):
     op = case["op"]
     if op in ("dist", "interp"):
         return (f"center={case['center'][:6]}{'...' if len(case['center']) > 6 else ''} n={len(case['center'])}"
+                f" dim={len(case['center'][0])} history={case.get('hist') or []}"
                 + (f" s={case['s']!r} ({case.get('sk')})" if op == "interp" else ""))
     if op == "merge":
-        return f"l1={ {k: case['l1'][k] for k in ('id', 'succ', 'pred')} } l2={ {k: case['l2'][k] for k in ('id', 'succ', 'pred')} } joint={case.get('joint')}"
+        return (f"l1={ {k: case['l1'][k] for k in ('id', 'succ', 'pred')} } n1={len(case['l1']['center'])} "
+                f"l2={ {k: case['l2'][k] for k in ('id', 'succ', 'pred')} } n2={len(case['l2']['center'])} "
+                f"predecessor=l{case.get('pred_is')} dim={len(case['l1']['center'][0])} joint={case.get('joint')}")
     return f"start={case['start']} max={case['max']!r} nodes={case['nodes']}"
 
 
@@ -292,9 +396,10 @@ def nontrivial(case):
 def kind(case):
     op = case["op"]
     if op in ("dist", "interp"):
-        return f"{op}:{case.get('mode')}" + (f":{case.get('sk')}" if op == "interp" else "")
+        return (f"{op}:{case.get('mode')}/{len(case['center'][0])}d{'/' + '+'.join(case['hist']) if case.get('hist') else ''}"
+                + (f":{case.get('sk')}" if op == "interp" else ""))
     if op == "merge":
-        return f"merge:{case.get('joint')}:{case.get('rel')}"
+        return f"merge/{len(case['l1']['center'][0])}d:{case.get('joint')}:{case.get('rel')}"
     return f"{op}:{case.get('shape')}"
 
 
@@ -303,9 +408,17 @@ STEPS = [(3, 4), (4, 3), (5, 0), (0, 5), (-3, 4), (4, -3), (6, 8), (8, 6), (5, 1
          (2, 0), (0, -2), (7, 24), (-4, 3), (3, -4)]
 
 
-def gen_polyline(rng, mode=None, n=None):
+# 3-D steps of integer length (Pythagorean quadruples, and triples in the x-z / y-z / x-y planes)
+STEPS3 = [(1, 2, 2), (2, 1, 2), (2, 2, 1), (2, 3, 6), (3, 6, 2), (6, 2, 3), (1, 4, 8), (4, 4, 7), (4, 7, 4), (2, 6, 9),
+          (6, 6, 7), (3, 4, 12), (3, 0, 4), (0, 3, 4), (4, 0, 3), (8, 0, 6), (12, 0, 5), (0, 12, 5), (3, 4, 0), (5, 0, 0),
+          (0, 5, 0), (-3, 4, 0), (2, -1, 2), (-4, 4, 7), (6, 0, 8), (1, 0, 0), (0, -2, 0), (-2, 3, 6), (12, 4, 3)]
+
+
+def gen_polyline(rng, mode=None, n=None, dim=2):
     mode = mode or rng.choice(["exact", "exact", "general", "general", "edge"])
     n = n or rng.choice([2, 2, 3, 3, 4, 5, 6, 8, 12, 20, 30, rng.randint(2, 30)])
+    if dim == 3:
+        return mode, gen_polyline3(rng, mode, n)
     if mode == "exact":
         sc = rng.choice([0.25, 0.5, 1.0, 1.0, 2.0])
         x, y = float(rng.randint(-8, 8)), float(rng.randint(-8, 8))
@@ -339,12 +452,58 @@ def gen_polyline(rng, mode=None, n=None):
     return mode, pts
 
 
+def gen_polyline3(rng, mode, n):
+    """centre line with elevation: (x, y, z) vertices"""
+    if mode == "exact":
+        sc = rng.choice([0.25, 0.5, 1.0, 1.0, 2.0])
+        p = [float(rng.randint(-8, 8)), float(rng.randint(-8, 8)), float(rng.randint(-4, 12))]
+        pts = [list(p)]
+        for _ in range(n - 1):
+            dx, dy, dz = rng.choice(STEPS3)
+            dz *= rng.choice([1, 1, -1])
+            p = [p[0] + dx * sc, p[1] + dy * sc, p[2] + dz * sc]
+            pts.append(list(p))
+        return pts
+    profile = rng.choice(["level", "ramp", "ramp", "hilly", "steep"])
+    if mode == "general":
+        x, y, a = round(rng.uniform(-50, 50), 3), round(rng.uniform(-50, 50), 3), rng.uniform(-3, 3)
+        z = round(rng.choice([0.0, rng.uniform(-5, 40)]), 3)
+        k = rng.choice([0.0, 0.02, -0.05, 0.1])
+        slope = {"level": 0.0, "ramp": rng.choice([0.04, -0.06, 0.12]), "hilly": 0.0, "steep": rng.choice([0.8, -1.5])}[
+            profile]
+        pts = [[x, y, z]]
+        while len(pts) < n:
+            ds = rng.choice([0.5, 1.0, 2.5, rng.uniform(0.2, 6)])
+            x, y, a = x + ds * math.cos(a), y + ds * math.sin(a), a + k * ds + rng.uniform(-0.1, 0.1)
+            if profile == "hilly":
+                slope = min(0.3, max(-0.3, slope + rng.uniform(-0.08, 0.08)))
+            if not (profile == "ramp" and rng.random() < 0.25):  # ramps have level stretches
+                z = z + slope * ds
+            q = [round(x, 3), round(y, 3), round(z, 3)]
+            if q != pts[-1]:
+                pts.append(q)
+        return pts
+    base = rng.choice([0.0, 1e5, -1e5, 1e3])
+    x, y, z = base + rng.randint(-3, 3), base / 2 + rng.randint(-3, 3), rng.choice([0.0, 1e3, -7.0, 250.5])
+    pts = [[x, y, z]]
+    while len(pts) < n:
+        ds = rng.choice([1e-6, 1e-3, 1.0, 100.0, 0.1, 1e-5])
+        a = rng.uniform(-0.5, 0.5)
+        x, y = x + ds * math.cos(a), y + ds * math.sin(a)
+        z = z + ds * rng.choice([0.0, 0.0, 1.0, -0.5, 1e-3, 3.0])
+        if [x, y, z] != pts[-1]:
+            pts.append([x, y, z])
+    return pts
+
+
 def boundaries(rng, center, mode):
     """left / right polylines with the same number of vertices, offset to either side and jittered so that the
     three polylines are not parallel translates"""
     w = rng.choice([2.0, 3.0, 3.5])
     left, right = [], []
-    for i, (x, y) in enumerate(center):
+    bank = rng.choice([0.0, 0.0, 0.125, 0.25])  # 3-D: the boundaries need not be level with the centre line
+    for i, pc in enumerate(center):
+        x, y = pc[0], pc[1]
         a, b = center[max(i - 1, 0)], center[min(i + 1, len(center) - 1)]
         dx, dy = b[0] - a[0], b[1] - a[1]
         nrm = math.hypot(dx, dy) or 1.0
@@ -354,13 +513,29 @@ def boundaries(rng, center, mode):
         rx, ry = x - nx * (w / 2 + jr), y - ny * (w / 2 + jr)
         if mode == "exact":
             lx, ly, rx, ry = (round(v * 8) / 8 for v in (lx, ly, rx, ry))
-        left.append([lx, ly])
-        right.append([rx, ry])
+        if len(pc) == 3:
+            left.append([lx, ly, pc[2] + bank + rng.choice([0.0, 0.0, 0.125])])
+            right.append([rx, ry, pc[2] - bank + rng.choice([0.0, 0.0, -0.125])])
+        else:
+            left.append([lx, ly])
+            right.append([rx, ry])
     return left, right
 
 
-def gen_lanelet_geom(rng, mode=None, n=None, dup=False):
-    mode, center = gen_polyline(rng, mode, n)
+def gen_dim(rng):
+    return 3 if rng.random() < 0.34 else 2
+
+
+def gen_history(rng, dim):
+    """what happened to the lanelet between construction and the judged call"""
+    if dim == 3:
+        return rng.choice([[], [], [], ["touch"], ["to2d"], ["touch", "to2d"], ["touch", "to2d"]])
+    return rng.choice([[], [], [], [], ["touch"], ["to2d"], ["touch", "to2d"]])
+
+
+def gen_lanelet_geom(rng, mode=None, n=None, dup=False, dim=None):
+    dim = dim or gen_dim(rng)
+    mode, center = gen_polyline(rng, mode, n, dim)
     if dup and len(center) >= 3:
         i = rng.randrange(len(center) - 1)
         center[i + 1] = list(center[i])
@@ -371,7 +546,8 @@ def gen_lanelet_geom(rng, mode=None, n=None, dup=False):
 
 def gen_interp(rng):
     g = gen_lanelet_geom(rng, dup=rng.random() < 0.04)
-    la = build_lanelet(g)
+    g["hist"] = gen_history(rng, len(g["center"][0]))
+    la = subject(g)
     d = [float(x) for x in la.distance]
     total = d[-1]
     k = rng.random()
@@ -404,25 +580,26 @@ def gen_interp(rng):
 
 
 def gen_merge(rng):
-    a = gen_lanelet_geom(rng, rng.choice(["exact", "general"]), rng.randint(2, 8))
-    b = gen_lanelet_geom(rng, a["mode"], rng.randint(2, 8))
+    dim = gen_dim(rng)
+    a = gen_lanelet_geom(rng, rng.choice(["exact", "general"]), rng.choice([2, 2, 3, 5, 8, rng.randint(2, 12)]), dim=dim)
+    b = gen_lanelet_geom(rng, a["mode"], rng.choice([2, 2, 3, 5, 8, rng.randint(2, 12)]), dim=dim)
     joint = rng.choice(["exact", "exact", "exact", "close", "apart", "left-only", "gap"])
     # move b so that it starts where a ends
     for k in ("left", "center", "right"):
-        ox, oy = a[k][-1][0] - b[k][0][0], a[k][-1][1] - b[k][0][1]
-        b[k] = [[p[0] + ox, p[1] + oy] for p in b[k]]
+        off = vsub(a[k][-1], b[k][0])
+        b[k] = [[v + o_ for v, o_ in zip(p, off)] for p in b[k]]
         b[k][0] = list(a[k][-1])
     if joint == "close":  # inside numpy.isclose, not equal
         for k in ("left", "center", "right"):
-            b[k][0] = [b[k][0][0] + rng.choice([1e-9, -1e-9, 4e-6 * abs(b[k][0][0])]), b[k][0][1]]
+            b[k][0] = [b[k][0][0] + rng.choice([1e-9, -1e-9, 4e-6 * abs(b[k][0][0])]), b[k][0][1]] + b[k][0][2:]
     elif joint == "apart":  # just outside numpy.isclose
         for k in ("left", "center", "right"):
-            b[k][0] = [b[k][0][0] + 3e-5 * abs(b[k][0][0]) + 1e-7, b[k][0][1] - 1e-4]
+            b[k][0] = [b[k][0][0] + 3e-5 * abs(b[k][0][0]) + 1e-7, b[k][0][1] - 1e-4] + b[k][0][2:]
     elif joint == "left-only":
-        b["right"][0] = [b["right"][0][0] + 0.5, b["right"][0][1]]
+        b["right"][0] = [b["right"][0][0] + 0.5, b["right"][0][1]] + b["right"][0][2:]
     elif joint == "gap":
         for k in ("left", "center", "right"):
-            b[k] = [[p[0] + 2.0, p[1] + 1.0] for p in b[k]]
+            b[k] = [[p[0] + 2.0, p[1] + 1.0] + p[2:] for p in b[k]]
     ida, idb = rng.sample(range(1, 400), 2)
     others = [i for i in rng.sample(range(400, 500), 4)]
     rel = rng.choice(["succ", "pred", "both", "succ", "both", "none", "cycle"])
@@ -441,8 +618,14 @@ def gen_merge(rng):
     judge = joint == "exact" and rel in ("succ", "pred", "both")
     for d in (l1, l2):
         d.pop("mode", None)
+    # where the merged lanelet is asked for positions (resolved on the merged centre line, see merged_queries)
+    nm = len(a["center"]) + len(b["center"])
+    qs = [{"k": "zero"}, {"k": "full"}, {"k": "joint"}]
+    for _ in range(rng.randint(2, 5)):
+        qs.append(rng.choice([{"k": "frac", "v": round(rng.random(), 4)}, {"k": "vertex", "i": rng.randrange(nm)},
+                              {"k": "mid", "i": rng.randrange(nm)}, {"k": "frac", "v": round(rng.random(), 4)}]))
     return {"op": "merge", "l1": l1, "l2": l2, "joint": joint, "rel": rel + ("/swapped" if swapped else ""),
-            "pred_is": 2 if swapped else 1, "judge": judge}
+            "pred_is": 2 if swapped else 1, "judge": judge, "touch": rng.random() < 0.4, "qs": qs}
 
 
 LENS = [2.5, 5.0, 7.5, 10.0, 12.5, 20.0, 0.25, 40.0, 1.0, 3.0]
@@ -531,7 +714,7 @@ def gen(rng, n):
         k = rng.random()
         if k < 0.12:
             g = gen_lanelet_geom(rng, dup=rng.random() < 0.04)
-            cases.append(dict(g, op="dist"))
+            cases.append(dict(g, op="dist", hist=gen_history(rng, len(g["center"][0]))))
         elif k < 0.5:
             cases.append(gen_interp(rng))
         elif k < 0.62:
@@ -543,7 +726,8 @@ def gen(rng, n):
 
 # ------------------------------------------------------------------------------------ correspondence
 def qpt(p):
-    return f"({qq(p[0])}, {qq(p[1])})"
+    """a vertex as the model's (x, y, z); 2-D vertices have z = 0"""
+    return f"({qq(p[0])}, {qq(p[1])}, {qq(p[2]) if len(p) > 2 else qq(0)})"
 
 
 def qpl(pl):
@@ -561,68 +745,94 @@ def isclose_margin(a, b):
     return abs(abs(F(a) - F(b)) - (F(1, 10 ** 8) + F(1, 10 ** 5) * abs(F(b))))
 
 
-def corr_term(case, o):
-    """Coq term of the case, or None if excluded (near a boundary where rounding decides a discrete output)"""
+def interp_term(pls, s, o):
+    """CInterp term for one query on the lanelet with polylines pls, or None (near a vertex, rounding decides)"""
+    center = pls["center"]
+    ls = seg_lens(center)
+    if not exact_sums(center):
+        cum = [F(0)]
+        for l in ls:
+            cum.append(cum[-1] + F(l))
+        guard = F(TOL) * max(1, cum[-1])
+        if any(abs(F(s) - c) < guard for c in cum[1:]) or (abs(F(s)) < guard and s != 0):
+            return None
+    sc = scale_of(center, pls["left"], pls["right"]) * len(center)
+    # amplification of the rounding of s - cum[idx] by |dP| / l (see the oracle)
+    amp = 1.0
+    for pl in (pls["left"], pls["right"], center):
+        for (p, q, l) in zip(pl, pl[1:], ls):
+            if l > 0:
+                amp = max(amp, math.hypot(*vsub(q, p)) / l)
+    if o[0] == "ip":
+        if any(len(p) not in (2, 3) for p in o[1]):
+            return None  # not a point of the model's shape: left to the oracle
+        ob = f"(OIP {qpt(o[1][0])} {qpt(o[1][1])} {qpt(o[1][2])} {qz(o[2])})"
+    else:
+        ob = {"assert": "OIPAssert", "index": "OIPIndex", "nan": "OIPNan"}[o[0]]
+    return (f"CInterp {qpl(center)} {qpl(pls['right'])} {qpl(pls['left'])} "
+            f"{qlist([qq(x) for x in ls])} {qq(s)} {qq(sc * amp)} {ob}")
+
+
+def corr_terms(case, o):
+    """(Coq terms of the case, number excluded): excluded = near a boundary where rounding decides a discrete
+    output, or the numpy sqrt missed l^2 = |d|^2 by more than 1e-15 (counted in oracle_stats too)"""
     op = case["op"]
     if op == "dist":
-        sc = scale_of(case["center"]) * len(case["center"])
-        return f"CDist {qlist([qq(x) for x in seg_lens(case['center'])])} {qq(sc)} {qlist([qq(x) for x in o[1]])}"
+        center = effective(case)["center"]
+        if not lens_hypothesis_ok(center):
+            return [], 1
+        sc = scale_of(center) * len(center)
+        return [f"CDist {qpl(center)} {qlist([qq(x) for x in seg_lens(center)])} {qq(sc)} "
+                f"{qlist([qq(x) for x in o[1]])}"], 0
     if op == "interp":
-        ls = seg_lens(case["center"])
-        s = case["s"]
-        if not exact_sums(case["center"]):
-            cum = [F(0)]
-            for l in ls:
-                cum.append(cum[-1] + F(l))
-            guard = F(TOL) * max(1, cum[-1])
-            if any(abs(F(s) - c) < guard for c in cum[1:]) or (abs(F(s)) < guard and s != 0):
-                return None
-        sc = scale_of(case["center"], case["left"], case["right"]) * len(case["center"])
-        # amplification of the rounding of s - cum[idx] by |dP| / l (see the oracle)
-        amp = 1.0
-        for pl in (case["left"], case["right"], case["center"]):
-            for (p, q, l) in zip(pl, pl[1:], ls):
-                if l > 0:
-                    amp = max(amp, math.hypot(q[0] - p[0], q[1] - p[1]) / l)
-        if o[0] == "ip":
-            ob = f"(OIP {qpt(o[1][0])} {qpt(o[1][1])} {qpt(o[1][2])} {qz(o[2])})"
-        else:
-            ob = {"assert": "OIPAssert", "index": "OIPIndex", "nan": "OIPNan"}[o[0]]
-        return (f"CInterp {qpl(case['center'])} {qpl(case['right'])} {qpl(case['left'])} "
-                f"{qlist([qq(x) for x in ls])} {qq(s)} {qq(sc * amp)} {ob}")
+        pls = effective(case)
+        if not lens_hypothesis_ok(pls["center"]):
+            return [], 1
+        t = interp_term(pls, case["s"], o)
+        return ([t], 0) if t else ([], 1)
     if op == "merge":
         a, b = case["l1"], case["l2"]
         # which one the code takes as predecessor decides whose ends are compared
         for p, s_ in ((a, b), (b, a)):
-            for i in (0, 1):
+            for i in range(len(p["left"][-1])):
                 if isclose_margin(p["left"][-1][i], s_["left"][0][i]) < F(1, 10 ** 13):
-                    return None
+                    return [], 1
         if o[0] == "assert":
-            ob = "OMAssert"
-        else:
-            ob = f"(OM {qlan(o[1])})"
-        return f"CMerge {qlan(a)} {qlan(b)} {ob}"
+            return [f"CMerge {qlan(a)} {qlan(b)} [] 0 OMAssert"], 0
+        m = o[1]
+        if not lens_hypothesis_ok(m["center"]):
+            return [], 1
+        sc = scale_of(m["center"]) * len(m["center"])
+        terms = [f"CMerge {qlan(a)} {qlan(b)} {qlist([qq(x) for x in seg_lens(m['center'])])} {qq(sc)} "
+                 f"(OM {qlan(m)} {qlist([qq(x) for x in o[5]])})"]
+        excluded = 0
+        for sv, oi in o[6]:  # the merged lanelet under the interpolate_position model
+            t = interp_term(m, sv, oi)
+            if t:
+                terms.append(t)
+            else:
+                excluded += 1
+        return terms, excluded
     rel = "succ" if op == "succ" else "pred"
     if o[0] != "paths":
-        return "CRoutes [] [] 0%Z 0 [[0%Z]]"  # never agrees: the model always terminates
+        return ["CRoutes [] [] 0%Z 0 [[0%Z]]"], 0  # never agrees: the model always terminates
     if sum(len(p) for p in o[1]) > 3000:
-        return None  # too large for a case file; judged by the oracle only
+        return [], 1  # too large for a case file; judged by the oracle only
     edges = qlist([f"({qz(int(k))}, {qlist([qz(x) for x in nd[rel]])})" for k, nd in case["nodes"].items()])
     lens = qlist([f"({qz(int(k))}, {qq(nd['len'])})" for k, nd in case["nodes"].items()])
-    return (f"CRoutes {edges} {lens} {qz(case['start'])} {qq(case['max'])} "
-            f"{qlist([qlist([qz(x) for x in p]) for p in o[1]])}")
+    return [f"CRoutes {edges} {lens} {qz(case['start'])} {qq(case['max'])} "
+            f"{qlist([qlist([qz(x) for x in p]) for p in o[1]])}"], 0
 
 
 def corr(ctx, cases):
     use, terms, excluded = [], [], 0
     for c in cases:
         o = observe(c)
-        t = corr_term(c, o)
-        if t is None:
-            excluded += 1
-            continue
-        use.append((c, o))
-        terms.append(t)
+        ts, ex = corr_terms(c, o)
+        excluded += ex
+        for t in ts:
+            use.append((c, o))
+            terms.append(t)
     imports = ("From Coq Require Import QArith ZArith List Bool NArith.\nImport ListNotations.\n"
                "From CR Require Import Base.QMod Model.ArcLen Model.Routes Corr.Obs Corr.C20.\nOpen Scope Q_scope.\n")
     bad, errors = ctx.coq_bad_indices("corr", imports, "", terms, "check", shard=150)
@@ -635,8 +845,12 @@ def corr(ctx, cases):
     ctx.coverage["near_boundary_excluded"] = excluded
     for e in errors:
         ctx.corr_break("Corr.C20.check (coqc failed)", e)
+    seen = set()
     for i in bad:
         c, o = use[i]
+        if id(c) in seen:
+            continue
+        seen.add(id(c))
         ctx.corr_break("Corr.C20.check: Model/ArcLen.v, Model/Routes.v vs commonroad.scenario.lanelet",
                        dict(c, observed=str(o)[:600]))
     ctx.log(f"corr cases={len(terms)} disagree={len(bad)} coq_errors={len(errors)} near_boundary={excluded}")
@@ -657,7 +871,7 @@ def run(ctx):
         ctx.coqchk()
     n = ctx.n(2500, 24000)
     cases = load_corpus(ctx.prop) + gen(ctx.rng, n)
-    stats = {"not_judged": 0, "lens_hypothesis_violated": 0, "exact_polylines": 0}
+    stats = {"not_judged": 0, "lens_hypothesis_violated": 0, "exact_polylines": 0, "3d_lanelets": 0, "3d_merges": 0}
 
     def run_oracle(cs):
         for c in cs:
@@ -665,10 +879,14 @@ def run(ctx):
             if not judged(c):
                 stats["not_judged"] += 1
             if c["op"] in ("dist", "interp"):
-                if not lens_hypothesis_ok(c["center"]):
+                center = effective(c)["center"]
+                if not lens_hypothesis_ok(center):
                     stats["lens_hypothesis_violated"] += 1
-                if exact_sums(c["center"]):
+                if exact_sums(center):
                     stats["exact_polylines"] += 1
+                stats["3d_lanelets"] += len(center[0]) == 3
+            if c["op"] == "merge":
+                stats["3d_merges"] += len(c["l1"]["center"][0]) == 3
             r = oracle(c)
             if r:
                 ctx.fail(r[0], r[1], c)
